@@ -432,7 +432,8 @@ def firstEnabled (w : World) : List Label → Option World
     | none => firstEnabled w as
 
 def threadLabels (w : World) : List Label :=
-  (List.range w.calls.length).map Label.call ++ (List.range w.conns.length).map Label.handler
+  (List.range w.calls.length).map Label.call ++ (List.range w.conns.length).map Label.ctxEnd ++
+    (List.range w.conns.length).map Label.handler
 
 def settle : Nat → World → World
   | 0, w => w
